@@ -1,17 +1,20 @@
 #!/bin/bash
-# usage: WT=/tmp/w4_<ID> tools/confirm_mutants.sh <ID>  (worktree with _seeded/mutant_{a,b}.diff and demo_{a,b}.rs; writes out/confirm4/<ID>.txt)
-# confirm the demos of one worktree: pass on clean tree, fail with the mutant
-id=$1; wt=/tmp/w4_$id; out=/verif/out/confirm4/$id.txt; : > $out
+# usage: WTPREFIX=/tmp/w5_ OUTDIR=/verif/out/confirm5 tools/confirm_mutants.sh <ID>
+# confirms the demos of one worktree (<prefix><ID> with _seeded/mutant_{a,b}.diff and
+# demo_{a,b}.rs): each demo must pass on the clean tree and fail with its mutant, and the
+# 64 unit tests must pass with the mutant. Writes <OUTDIR>/<ID>.txt.
+id=$1; wt=${WTPREFIX:-/tmp/w5_}$id; outdir=${OUTDIR:-/verif/out/confirm5}; mkdir -p $outdir; out=$outdir/$id.txt; : > $out
 cd $wt || exit 1
+export CARGO_NET_OFFLINE=true
 for m in a b; do
   [ -f _seeded/mutant_$m.diff ] || { echo "$id $m: no diff" >> $out; continue; }
   git checkout -q -- src; mkdir -p tests; cp _seeded/demo_$m.rs tests/demo_$m.rs
-  rel=""; grep -qi "\-\-release" _seeded/NOTES.md && grep -qi "demo_$m.*--release\|needs.*release" _seeded/NOTES.md && rel=""
-  CARGO_NET_OFFLINE=true cargo test --offline --test demo_$m > /tmp/confirm_${id}_${m}_clean.log 2>&1; c=$?
+  feat=""; grep -q "no-default-features.*demo_$m\|demo_$m.*no-default-features" _seeded/NOTES.md && feat="--no-default-features"
+  cargo test --offline $feat --test demo_$m > $outdir/${id}_${m}_clean.log 2>&1; c=$?
   git apply _seeded/mutant_$m.diff || { echo "$id $m: patch does not apply" >> $out; continue; }
-  CARGO_NET_OFFLINE=true cargo test --offline --lib > /tmp/confirm_${id}_${m}_unit.log 2>&1; u=$?
-  CARGO_NET_OFFLINE=true cargo test --offline --test demo_$m > /tmp/confirm_${id}_${m}_mut.log 2>&1; d=$?
+  cargo test --offline --lib --bins > $outdir/${id}_${m}_unit.log 2>&1; u=$?
+  cargo test --offline $feat --test demo_$m > $outdir/${id}_${m}_mut.log 2>&1; d=$?
   git checkout -q -- src
-  echo "$id $m: demo_clean_exit=$c unit_tests_with_mutant_exit=$u demo_with_mutant_exit=$d" >> $out
+  echo "$id $m: demo_clean_exit=$c unit_tests_with_mutant_exit=$u demo_with_mutant_exit=$d${feat:+ (demo run with $feat)}" >> $out
 done
 rm -rf target example.qwt256
